@@ -3,7 +3,7 @@
 # given properties (default: all) against that property's quick check, one worker per property, and writes
 # /verif/sweeps/<ID>.tsv:  kind <TAB> name <TAB> verdict <TAB> first violation key
 # Nothing is applied to /repo: `check --mutant` patches its own scratch copy.
-cd /verif || exit 1
+cd "$(dirname "$0")/.." || exit 1
 mkdir -p sweeps
 ids=("$@")
 if [ ${#ids[@]} -eq 0 ]; then
